@@ -1,5 +1,7 @@
 // C15 target 2: dbd_gA::initialize on arbitrary table files (first byte selects p.d.f. / c.d.f. file).
 #include <cmath>
+#include <cstring>
+#include <sstream>
 #include <string>
 
 #include <bxdecay0/dbd_gA.h>
@@ -31,6 +33,44 @@ extern "C" int LLVMFuzzerTestOneInput(const uint8_t * data, size_t size)
     g.set_process(bxdecay0::dbd_gA::PROCESS_G0);
     g.set_shooting(pdf ? bxdecay0::dbd_gA::SHOOTING_REJECTION : bxdecay0::dbd_gA::SHOOTING_INVERSE_TRANSFORM_METHOD);
     g.initialize();
+    bool roomy = false; // header as loaded: 0 <= E_min < E_max and E_sum(max) >= 2 E_min + step (the cell above the first node is allowed)
+    {
+      std::ostringstream o;
+      o.precision(17);
+      g.print(o, "", "");
+      const std::string txt = o.str();
+      auto val = [&](const char * key, double & v) {
+        size_t i = txt.find(key);
+        if (i == std::string::npos) return false;
+        v = atof(txt.c_str() + i + strlen(key));
+        return true;
+      };
+      double es = 0, n = 0, lo = 0, hi = 0;
+      if (val("esum(max) = ", es) && val("e1(nsamples) = ", n) && val("e1(min) = ", lo) && val("e1(max) = ", hi) && n >= 2)
+        roomy = lo >= 0 && hi > lo && es >= 2 * lo + (hi - lo) / (n - 1);
+    }
+    if (pdf && roomy) {
+      // a p.d.f. table that was accepted must be able to produce an event: with the third deviate of every try at 1e-300 a
+      // candidate is accepted as soon as the interpolated density is non-zero, which a table with one positive node offers on
+      // at least 1/(n-1)^2 of the sampled triangle (half a cell, n <= 96 here) when the header is roomy; 1e6 tries without an
+      // acceptance mean the density is zero everywhere
+      struct EveryThirdTiny : public bxdecay0::i_random
+      {
+        verif::Rng r{1, 77};
+        size_t n = 0;
+        double operator()() override
+        {
+          if (n >= 3000000) throw verif::tape_exhausted();
+          return (n++ % 3 == 2) ? 1e-300 : r.uniform();
+        }
+      } t0;
+      double e1 = -1, e2 = -1;
+      try {
+        g.shoot_e1_e2(t0, e1, e2);
+      } catch (verif::tape_exhausted &) {
+        FZ_VIOLATION("the rejection sampler cannot produce a single pair from a table the loader accepted (density zero everywhere)");
+      }
+    }
     // loaded: the sampler must now stay in bounds and finite (bounded work: draw cap); besides i.i.d. deviates the first two
     // deviates are steered over a grid with both tails, so that the first and the last row/cell of whatever was loaded are used
     verif::Tape t(1, size);
